@@ -10,7 +10,7 @@ CRYPTO = "secp256k1/Keccak (go-ethereum): signature verification is a parameter 
 def srv(focus, quick=(28, 150), thorough=(320, 300)):
     return {"name": "srv-" + focus, "cmd": ["srv", focus, "{seed}"], "quick": list(quick), "thorough": list(thorough)}
 
-SERVER_TIE_COMMON = ["window", "sentinel", "handleReport_kinds", "storage", "storage_index", "integrate_kinds",
+SERVER_TIE_COMMON = ["udp_length_guard", "udp_kinds", "window", "sentinel", "handleReport_kinds", "storage", "storage_index", "integrate_kinds",
                      "verify_keys_server", "layout_report", "layout_report_signing", "layout_parse_report", "prefix_report", "report_size"]
 
 SRV_TB = [KERNEL, TRANSLATOR, HARNESS, CRYPTO]
@@ -51,7 +51,8 @@ PROPS = {
     },
     "C12": {
         "modules": ["Gca.Props.C12"],
-        "tie": ["storage", "storage_index", "impact_guard", "impact_index", "stats_archive_index", "window", "integrate_kinds"],
+        "tie": ["udp_length_guard", "udp_kinds", "storage", "storage_index", "impact_guard", "impact_index", "stats_archive_index", "window", "integrate_kinds",
+                "migration_location_bound", "server_location_bound"],
         "jobs": [srv("C12")],
         "rule": "mixed histories with every request kind at clocks from offset to beyond two windows; every scenario runs in its own process so that a panic anywhere (handler goroutines included) is seen as a crash; witnesses F1, F4, F10, F11 replay the repaired crashes/wedges; non-trivial = not dropped/refused",
         "trusted_base": SRV_TB,
@@ -65,12 +66,57 @@ PROPS = {
         "trusted_base": [KERNEL, TRANSLATOR, HARNESS, CRYPTO],
         "assumptions": ["reports reach integrateReport only through the modelled UDP path or the replay at start-up"],
     },
+    "C09": {
+        "modules": ["Gca.Props.C09"],
+        "tie": ["save_before_origin", "save_beyond_range", "save_same", "save_occupied", "save_offset", "save_kinds",
+                "load_before_origin", "load_beyond_range", "load_offset", "load_kinds", "history_slots", "resend_energy"],
+        "jobs": [{"name": "hist", "cmd": ["hist", "{seed}"], "quick": [24, 90], "thorough": [300, 200]}],
+        "rule": "random save/load sequences on the real history file for origins 0/100/5000/2^31/2^32-51 with values 0,1,2,3,500,2^31,2^32-1 and random; timeslots before the origin, at it, up to 6000 slots ahead; range boundaries 2^30-3..2^32-1 probed on an empty store; the file bytes are compared with the model after every save; non-trivial = save accepted or load non-zero",
+        "trusted_base": [KERNEL, TRANSLATOR, HARNESS, "ReadAt/WriteAt semantics of os.File (sparse extension with zeros)"],
+        "assumptions": ["known finding F17: values that differ only above bit 32 are both emitted (c09_mod32_witness); the emission theorem is stated modulo 2^32"],
+    },
+    "C10": {
+        "modules": ["Gca.Props.C10"],
+        "tie": ["reply_min_length", "reply_freshness", "sync_bit_rule", "sync_byte_index", "resend_bit", "verify_keys_client",
+                "prefix_client_migration", "layout_auth_server", "layout_migration", "migration_location_bound", "server_location_bound"],
+        "jobs": [{"name": "reply", "cmd": ["reply", "{seed}"], "quick": [16, 60], "thorough": [200, 200]}, srv("C17", (14, 120), (200, 250))],
+        "rule": "genuine replies of the real server (reports at window edges, 0..3 servers with locations 0..255 and ban flags, with/without migration orders of 0..3 servers incl. badly signed ones) fed to the real client parser through a scripted TCP server, plus per genuine reply: every kind of mutation (single bit flips incl. the length prefix, truncation, extension, wrong server key, wrong GCA, other device, unknown id) and rogue-server variants re-signed with the server's real key (bit flips, time shifts around +-24h, random bodies of critical lengths, truncated entry regions with inflated location length); non-trivial = parser accepted",
+        "trusted_base": [KERNEL, TRANSLATOR, HARNESS, CRYPTO, "TCP framing (io.ReadFull)"],
+        "assumptions": ["known finding F19: replies longer than 65535 bytes cannot be framed (explicit hypothesis of the round-trip theorems)"],
+    },
+    "C11": {
+        "modules": ["Gca.Props.C11"],
+        "tie": ["reply_min_length", "reply_freshness", "verify_keys_client"],
+        "jobs": [{"name": "round", "cmd": ["round", "{seed}"], "quick": [28, 6], "thorough": [300, 10]},
+                 {"name": "reply", "cmd": ["reply", "{seed}"], "quick": [8, 60], "thorough": [120, 200]}],
+        "rule": "real sync rounds of a real client against 1..5 scripted servers (valid reply, reset, short read, foreign signature, random bytes; banned and all-banned configurations) with the dial order observed; after every round: mutex try-lock, identity, server map in memory and on disk, retransmitted datagrams at a UDP sink; client restarts in between; plus the reply-parser run (lengths 0..900 incl. rogue correctly signed bodies); non-trivial = round synced / parser accepted",
+        "trusted_base": [KERNEL, TRANSLATOR, HARNESS, CRYPTO, "crypto/rand shuffle (the chosen server is an input of the model, checked to be eligible)"],
+        "assumptions": ["'keeps emitting reports and syncs again later' is liveness, observed only (partial)"],
+    },
+    "C16": {
+        "modules": ["Gca.Props.C16"],
+        "tie": ["unixToTimeslot"],
+        "jobs": [{"name": "energy", "cmd": ["energy", "{seed}"], "quick": [24, 40], "thorough": [300, 120]}],
+        "rule": "random energy files (header variants, missing header, single-column rows, quoted fields, wrong column counts, broken quoting, readings incl. boundary +-24, huge, negative, scientific, NaN/Inf, unparseable, timestamps before genesis, at the 32-bit slot limit, int64 extremes) x calibration files (absent, valid, fractional, zero divider, malformed, one line); the rows the CSV reader returns and strconv's verdicts are given to the model, the float rule is evaluated with Lean's hardware doubles and compared bit for bit; non-trivial = at least one record produced",
+        "trusted_base": [KERNEL, HARNESS, "encoding/csv record splitting, strconv.ParseInt/ParseFloat, IEEE-754 arithmetic and amd64 float->uint64 conversion (compared bit for bit with Lean Float, not proved)"],
+        "assumptions": ["scaled values that do not fit 64 signed bits, NaN/Inf and zero dividers are checked for absence of crashes only"],
+    },
+    "C17": {
+        "modules": ["Gca.Props.C17"],
+        "tie": ["verify_keys_server", "verify_keys_client", "prefix_authServer", "prefix_migration", "layout_auth_server",
+                "migration_location_bound", "server_location_bound", "server_ban_rule", "authServersPOST_kinds", "validateMigration_kinds"],
+        "jobs": [{"name": "round", "cmd": ["round", "{seed}"], "quick": [28, 6], "thorough": [300, 10]}, srv("C17")],
+        "rule": "client: real sync rounds delivering server lists (re-announcements with changed ports, bans, un-ban attempts, new servers, entries not signed by the GCA) and migration orders (valid, for another device, outer signature by the wrong GCA, inner signatures by the wrong GCA, empty), with client restarts; memory, files and the reloaded state compared with the model; server: POST sequences of server authorizations and migration orders in the C07-focused histories; non-trivial = round synced / post accepted",
+        "trusted_base": [KERNEL, TRANSLATOR, HARNESS, CRYPTO],
+        "assumptions": ["the server-side list is not persisted (documented in the code), so monotonicity is stated between restarts"],
+    },
     "C15": {
         "modules": ["Gca.Props.C15"],
         "tie": ["prefix_report", "prefix_auth", "prefix_registration", "prefix_authServer", "prefix_migration", "prefix_stats",
                 "prefix_client_migration", "prefixes_prefix_free", "layout_report", "layout_report_signing", "layout_report_read",
-                "layout_parse_report", "layout_auth", "layout_auth_read", "layout_auth_server", "layout_migration", "layout_registration"],
-        "jobs": [{"name": "codec", "cmd": ["codec", "{seed}"], "quick": [250], "thorough": [4000]}],
+                "layout_parse_report", "layout_auth", "layout_auth_read", "layout_auth_server", "layout_migration", "layout_registration",
+                "migration_location_bound", "server_location_bound", "validateMigration_kinds"],
+        "jobs": [{"name": "codec", "cmd": ["codec", "{seed}"], "quick": [250], "thorough": [4000]}, srv("C17", (14, 120), (200, 250))],
         "rule": "random and boundary field values (0, max, 2^63, subnormal, -0, max float), lengths around the valid one, lists of 0..3 servers, locations 0..65536 bytes, streams of 0..2 weeks incl. truncated ones; Go encoder/decoder output compared byte for byte (or by FNV-64 of the hex for 32 KB records) with the Lean codec; non-trivial = decoder accepted / encoder produced bytes",
         "trusted_base": [KERNEL, TRANSLATOR, HARNESS, CRYPTO + "; deterministic signing and rejection of any flipped bit are checked by execution only (crypto.check lines)",
                          "encoding/json float round-trip (exercised through the real endpoint in the server runs)"],
